@@ -52,3 +52,22 @@ Example C11_nonvacuous :
   decode_decimal (enc_decimal 18 0 false [0;0;0;0;0;0;0;0;0;0;0;0;0;0;0;0;0;5] []) 0 (18 * 256) = Ok (Some [53], 8) /\
   decode_decimal (enc_decimal 20 2 true [0;0;0;0;0;0;0;0;0;0;0;0;0;0;0;0;0;5] [0;0]) 0 (20 * 256 + 2) = Ok (Some [45; 53; 46; 48; 48], 9).
 Proof. repeat split; vm_compute; reflexivity. Qed.
+
+
+(* ---------------------------------------------------------------------------------------------------------------
+   Tie by proof to the Go source.  gen/TransCellBytes.v is CellBytes of /repo/replication/binlog_event_rbr.go, translated
+   on every run by harness/cmd/gotrans (one definition per case of its switch and the dispatcher CellBytes_g); for the
+   type codes below the translated function returns, for EVERY row data, position, metadata and signedness, the value
+   text and consumed length that Model.Cell.cell_bytes returns - the model function the theorems above are about (same
+   outcome class on errors and panics).  Oracles shared by both sides: ffmt (strconv.AppendFloat 'f'), print_timestamp tz
+   (printTimestamp, pinned below / in C12), jsonp (printJSONData, C14).  flat forgets the difference between a nil and an
+   empty result slice (the model never answers NULL: that is decided by the NULL bitmap before CellBytes is called).
+   A change to one of these cases of CellBytes either keeps this provable or breaks the build before any test runs. *)
+From GB Require Import Base.GoSem Proofs.TransEquivCellBytesDefs Proofs.TransEquivCellBytesTies.
+From GBGen Require Import TransCellBytes.
+Theorem C11_tie_CellBytes : forall ffmt tz jsonp fuel d pos typ meta uns,
+  In typ [246] -> (1000 <= fuel)%nat -> wf_bytes d -> 0 <= meta < 65536 -> Z.of_nat pos < 2 ^ 62 -> (pos <= length d)%nat ->
+  res_sim (CellBytes_g ffmt (print_timestamp tz) jsonp fuel d (Z.of_nat pos) typ meta uns)
+          (flat (cell_bytes ffmt tz jsonp d pos typ meta uns)).
+Proof. exact CellBytes_tie_decimal. Qed.
+Print Assumptions C11_tie_CellBytes.
